@@ -231,6 +231,23 @@ Definition corr_C09 (inp : list Z) : list Z :=
       let step := if Z.eqb reset 0 then raise_shared_F12 else raise_shared in
       enc_list (fun i => [Z.of_nat i])
                (nth 0 (fold_left (fun tb id => step (Z.to_nat id) tb 0) ids [[]]) [])
+  | 4%Z :: pk :: nshared :: n :: r0 =>
+    (* a retention history: the same request class n times, ids 0..n-1; output = the last
+       response, the traceback owners, the alive ids *)
+    match dec_hcase fuel r0 with
+    | Some (c, _) =>
+        let with_id := fun i =>
+          let q := hc_req c in
+          mkHC (mkReq i (q_raw q) (q_head q) (q_fw q) (q_json q) (q_url q) (q_rest q) (q_replaced q))
+               (hc_prog c) (hc_raised c) in
+        let cases := map with_id (seq 0 (Z.to_nat n)) in
+        let app := mkApp (beh_of (negb (Z.eqb pk 0)) cases) (fun _ => None) (Z.to_nat nshared) in
+        let '(rs, ts) := run app (ts_fresh app) (map hc_req cases) in
+        enc_list enc_response (match rev rs with x :: _ => [x] | [] => [] end)
+        ++ enc_list (fun tb => enc_list (fun i => [Z.of_nat i]) tb) (t_tb ts)
+        ++ enc_list (fun i => [Z.of_nat i]) (alive ts)
+    | None => bad_input
+    end
   | variant :: pk :: nshared :: r0 =>
     match dec_list (fun l => match l with
                              | c :: r => match dec_ehspec fuel r with
